@@ -1338,4 +1338,31 @@ example : ∀ p : Party, p.st = .enc → ∃ q o, p.recv (.data true false 1 1 n
   obtain ⟨q, o, h, _, _, _, _, _, he⟩ := modified_data_rejected p true false 1 1
   exact ⟨q, o, h, he hp rfl⟩
 
+/-! ## a revealed MAC key is never accepted again -/
+
+/-- after `evictSlots f`, no slot that satisfies `f` is still in use: the receiving-MAC keys that
+    `rotateDHKeys` / the peer's key rotation put into `c.oldMACs` (and hence on the wire) belong to slots
+    the cache can no longer hit -/
+theorem evicted_not_used (f : Slot → Bool) (hf : ∀ s : Slot, f { s with used := false } = f s)
+    (ss : List Slot) : ∀ s ∈ evictSlots f ss, ¬ (s.used = true ∧ f s = true) := by
+  intro s hs
+  simp only [evictSlots, List.mem_map] at hs
+  obtain ⟨t, _, rfl⟩ := hs
+  by_cases h : (t.used && f t) = true
+  · simp [h]
+  · rw [if_neg h]
+    intro ⟨h1, h2⟩
+    exact h (by simp [h1, h2])
+
+/-- instance for the peer's rotation: after a message with sender key id `skid` was accepted as their
+    current key, a forged message under their retired key id `skid - 1` cannot be a cache hit -/
+theorem retired_their_key_no_cache_hit (p : Party) (skid : Nat) (next : Id) (myKid : Nat)
+    (h : skid = p.theirKeyId) :
+    findSlot (p.rotateTheirs skid next).slots
+      (fun s => s.used && s.theirKeyId == pred32 skid && s.myKeyId == myKid) = none := by
+  simp only [Party.rotateTheirs, h, if_true, findSlot, List.findIdx?_eq_none_iff]
+  intro s hs
+  have := evicted_not_used (fun s => s.theirKeyId == pred32 p.theirKeyId) (fun _ => rfl) p.slots s hs
+  cases hu : s.used <;> simp_all
+
 end XC.C47
